@@ -388,12 +388,12 @@ func judge(sub *lab.SubCheck, c concCase, res concResult) (viol string, labels [
 		}
 	}
 	if !orphanRegion {
-		r := porcupine.CheckOperationsTimeout(poolSpec(c.MaxIdle), res.ops, 5*time.Second)
+		r := porcupine.CheckOperationsTimeout(poolSpec(c.MaxIdle), res.ops, 2*time.Second)
 		switch r {
 		case porcupine.Illegal:
 			return "the history is not linearizable with respect to the pool specification (put accepted only below max_idle, get returns only idle connections, shutdown closes all idle connections)" + describeOps(res.ops), nil
 		case porcupine.Unknown:
-			labels = append(labels, "linearizability-undecided-in-5s")
+			labels = append(labels, "linearizability-undecided-in-2s")
 		default:
 			labels = append(labels, "linearizable")
 		}
